@@ -46,16 +46,54 @@ def run(chk) -> None:
     for t in TABLES:
         if not assigns[t]:
             raise AnchorError(f"C08.R1: Workflow._validate never assigns self.{t}")
+    # statements of Workflow.run (the caller) that (re)build both tables, directly or through a method of the class
+    _, runf0 = repo.func(f"{WFM}:Workflow.run")
+    crun = CFG(runf0)
+    wmethods = repo.methods(f"{WFM}:Workflow")
+
+    def assigns_both(fn: ast.AST) -> bool:
+        got = {x.attr for x in ast.walk(fn) if isinstance(x, ast.Attribute) and isinstance(x.ctx, ast.Store) and ast.unparse(x.value) == "self" and x.attr in TABLES}
+        return got == set(TABLES) and any(isinstance(c, ast.Call) and last(call_name(c)) == "_collect_catch_error_handlers" for c in ast.walk(fn))
+
+    refreshers = []
+    for n in crun.nodes:
+        if n.ast is None or n.kind != "stmt":
+            continue
+        for x in exprs_in_node(n):
+            if isinstance(x, ast.Call) and isinstance(x.func, ast.Attribute) and ast.unparse(x.func.value) == "self" and x.func.attr in wmethods and x.func.attr != "_validate" and assigns_both(wmethods[x.func.attr]):
+                refreshers.append(n)
+        if isinstance(n.ast, ast.Assign) and {t.attr for t in ast.walk(n.ast) if isinstance(t, ast.Attribute) and isinstance(t.ctx, ast.Store) and ast.unparse(t.value) == "self"} >= set(TABLES) and "_collect_catch_error_handlers" in ast.unparse(n.ast.value):
+            refreshers.append(n)
+    launches0 = [n for n in crun.nodes if n.ast is not None and any(isinstance(x, ast.Call) and last(call_name(x)) == "_workflow_run" for x in exprs_in_node(n))]
+
+    def caller_covers(r_facts: set) -> bool:
+        """In run(): on every path on which these facts (about self.*) hold, a refresher executes before the launch."""
+        if not refreshers or not launches0:
+            return False
+        from ..astx import atoms as _atoms
+        contradicting = []
+        for t in crun.nodes:
+            if t.kind != "test":
+                continue
+            for lab in ("T", "F"):
+                for a, pol in _atoms(t.ast.test, lab == "T"):
+                    if (a, not pol) in r_facts:
+                        contradicting.append((t, lab))
+        r = crun.reach([crun.entry], blocked=refreshers, blocked_edges=contradicting, labels_excluded=("exc", "cancel"))
+        return not any(l in r for l in launches0)
+
     for r in rets:
         facts = facts_at(cfg, r, expand_locals=True)
         cached = has_fact(facts, "self._validation_result is not None")
+        self_facts = {(a, p) for a, p in facts if a.startswith("self.")}
+        covered = (not cached) and bool(self_facts) and caller_covers(self_facts)
         for t in TABLES:
             dominated = r not in cfg.reach([cfg.entry], blocked=assigns[t])
             txt = " ".join(ast.unparse(r.ast).split())
             role = "cached" if cached else ("disabled" if any("_disable_validation" in a for a, p in facts if p) else "full")
-            chk.ob("C08.R1", f"_validate reaches `{txt}` only after assigning self.{t} (or on the cached-result path)", dominated or cached, m=mw, node=r.ast, fn=val,
+            chk.ob("C08.R1", f"_validate reaches `{txt}` only after assigning self.{t} (or on the cached-result path, or run() rebuilds the tables for that case before launching)", dominated or cached or covered, m=mw, node=r.ast, fn=val,
                    instance=f"tables-before-return:{role}:{t}",
-                   reason=f"this return leaves self.{t} at its empty default: BrokerState.from_workflow copies an empty routing table, so with disable_validation=True no @catch_error handler is ever entered")
+                   reason=f"this return leaves self.{t} at its empty default and run() does not rebuild it before launching: BrokerState.from_workflow copies an empty routing table, so with disable_validation=True no @catch_error handler is ever entered")
     # the values come from the handler collection
     mv, vw = repo.func(f"{VAL}:_validate_workflow")
     coll_calls = [c for c in ast.walk(vw) if isinstance(c, ast.Call) and last(call_name(c)) == "_collect_catch_error_handlers"]
@@ -207,6 +245,10 @@ TWINS = [
     Twin("wildcard covers handlers", VAL_REL, "            if step_name in handler_step_names:\n                continue\n            if step_name in handler_for_step:", "            if step_name in handler_for_step:", "C08.R3"),
     Twin("tables only when hitl", WF_REL, "        self._catch_error_handlers = result.catch_error_handlers\n", "        if result.uses_hitl:\n            self._catch_error_handlers = result.catch_error_handlers\n", "C08.R1"),
     Twin("from_workflow forgets routing", "packages/llama-index-workflows/src/workflows/runtime/types/internal_state.py", "                handler_for_step=dict(workflow._handler_for_step),", "                handler_for_step={},", "C08.R1"),
+    Twin("refresh only when handlers were seen before", WF_REL, "        if self._disable_validation:\n            # Graph validation is skipped", "        if self._disable_validation and self._catch_error_handlers:\n            # Graph validation is skipped", "C08.R1"),
+    Twin("refresh dropped", WF_REL, "            self._refresh_catch_error_routing()\n", "            pass\n", "C08.R1"),
+    Twin("refresh forgets the step map", WF_REL, "        (\n            self._catch_error_handlers,\n            self._handler_for_step,\n        ) = _collect_catch_error_handlers(self._step_configs())", "        self._catch_error_handlers, _ = _collect_catch_error_handlers(self._step_configs())", "C08.R1"),
+    Twin("benign: refresh inline", WF_REL, "            self._refresh_catch_error_routing()\n", "            from .representation.validate import _collect_catch_error_handlers\n            (self._catch_error_handlers, self._handler_for_step) = _collect_catch_error_handlers(self._step_configs())\n", None),
     Twin("benign: budget via local", CL_REL, "                should_route = (\n                    handler is not None and new_count <= handler.max_recoveries\n                )", "                within_budget = handler is not None and handler.max_recoveries >= new_count\n                should_route = within_budget", None),
     Twin("benign: cached check reordered", WF_REL, "if not force and not stale and self._validation_result is not None:", "if self._validation_result is not None and not force and not stale:", None),
 ]
